@@ -157,6 +157,11 @@ pub fn run(report: &Report, thorough: bool) -> Evidence {
                     }
                     RefOut::Unspecified(_) => {
                         unspecified.fetch_add(1, Ordering::Relaxed);
+                        // the statement gives no result for these inputs, but whatever the result is, it is made of the
+                        // old text, the key's value and Bengali letters / joiners - nothing else (no control characters)
+                        if let Some(bad) = got.chars().find(|c| !(step.pre.buf.contains(*c) || value.contains(*c) || crate::bn::is_bengali_block(*c) || *c == crate::bn::ZWNJ || *c == '\u{200D}')) {
+                            viol("foreign-character", "foreign-character".into(), format!("{:?} + key value {:?} gave {:?}, which contains {:?}", step.pre.buf, value, got, bad));
+                        }
                     }
                     RefOut::RephConservation => {
                         reph_conservation_only.fetch_add(1, Ordering::Relaxed);
